@@ -1,5 +1,5 @@
 """C17 — emu-mps quantum-jump trajectories: noise plumbing (structural clauses)."""
-from ..rules import jump, noise, step, tdvp
+from ..rules import adapter, jump, noise, step, tdvp
 
 META = {
     "title": "emu-mps quantum-jump trajectories reproduce Lindblad dynamics on average",
@@ -24,3 +24,4 @@ def check(ctx):
     jump.noisy_timestep(ctx)
     tdvp.evolve_plumbing(ctx)
     ctx.floor("ROLE-noise", 8)
+    adapter.noise_source(ctx)
